@@ -19,6 +19,7 @@
    C01_never_connected_without_bidirectional_path_any). *)
 From Coq Require Import ZArith Bool List.
 From Ice Require Import Model.AgentTypes Model.AgentCore Model.PairMonitor Model.TwoAgents Gen.Consts Proofs.AgentFrame Proofs.AgentC01 Proofs.TwoAgentsProofs Proofs.TwoAgentsReach Proofs.TwoAgentsLite.
+From Ice Require Import Model.TwoAgentsData Proofs.AgentEnds Proofs.TwoAgentsDataProofs Proofs.TwoAgentsProjection.
 Import ListNotations.
 Local Open Scope Z_scope.
 
@@ -109,3 +110,40 @@ Example C01_example_mirror :
   let fb := mkSideFinal 3 false (Some (1, mkAddr false 167837697 5000)) in
   forallb snd (C01_checks su fa fb true true true true) = true.
 Proof. vm_compute. reflexivity. Qed.
+
+(* ---- projection (Proofs/TwoAgentsProjection.v): inside the composed system -- any topology, any schedule of API calls,
+   ticks, STUN and data deliveries, drops and duplications -- the state of each agent is the state the single-agent
+   machine reaches on that agent's own operations, in order ([history_of]: its API calls and ticks, the datagrams
+   delivered to it).  So every theorem about "every history of one agent" (C02 - C07, C20) holds for each agent of the
+   system; the network only chooses WHICH history each agent sees. *)
+Theorem C01_agent_state_is_own_history : forall cfga cfgb t a ops d,
+  agent_of a (d_sys (dsys_run cfga cfgb t d ops)) =
+  runs (cfg_of cfga cfgb a) (agent_of a (d_sys d)) (history_of cfga cfgb t a d ops).
+Proof. exact agent_state_is_own_history. Qed.
+Print Assumptions C01_agent_state_is_own_history.
+
+Theorem C01_system_states_are_single_agent_states : forall cfga cfgb t a lua lpa lub lpb ops,
+  let d0 := dsys_init lua lpa lub lpb in
+  agent_of a (d_sys (dsys_run cfga cfgb t d0 ops)) =
+  fst (run (cfg_of cfga cfgb a) (if a then lua else lub) (if a then lpa else lpb) (history_of cfga cfgb t a d0 ops)).
+Proof. exact system_states_are_single_agent_states. Qed.
+Print Assumptions C01_system_states_are_single_agent_states.
+
+(* e.g. C03's invariant for both agents of the system *)
+Theorem C01_system_selected_is_validated_and_nominated : forall cfga cfgb t a lua lpa lub lpb ops id,
+  let s := agent_of a (d_sys (dsys_run cfga cfgb t (dsys_init lua lpa lub lpb) ops)) in
+  s_selected s = Some id ->
+  exists p, In p (s_checklist s) /\ p_id p = id /\ p_state p = CandidatePairStateSucceeded /\ p_nominated p = true.
+Proof. exact system_selected_is_validated_and_nominated. Qed.
+Print Assumptions C01_system_selected_is_validated_and_nominated.
+
+(* non-vacuity: the schedule of C01_example_two_agents (24 system operations) splits into 14 operations of A and 10 of B,
+   and replaying A's 14 on a single agent gives A's state in the system *)
+Example C01_example_projection :
+  let E := C01_example_two_agents.cfg in
+  let t := C01_example_two_agents.topo (true, true) in
+  let ops := map DSys C01_example_two_agents.sched in
+  let d0 := dsys_init 1 2 3 4 in
+  (length (history_of (E 5) (E 6) t true d0 ops), length (history_of (E 5) (E 6) t false d0 ops)) = (14%nat, 10%nat) /\
+  s_selected (runs (E 5) (init 1 2) (history_of (E 5) (E 6) t true d0 ops)) = Some 1.
+Proof. vm_compute. split; reflexivity. Qed.
